@@ -160,6 +160,21 @@ def rule_fetchsib(P) -> RuleResult:
                                      'buffer - rows are delivered twice and the position overshoots')
                                 break
                             seen_yield = i
+                        # a row is counted when it is handed out, not when the consumer comes back for the next one: whoever holds
+                        # the row (or abandons the loop there) sees rownumber include it
+                        moved = 0
+                        k = 0
+                        late = False
+                        for e in p.events:
+                            if (e[0] == 'aug' and e[1] == _attr('_pos')) or (e[0] == 'store' and e[1] == _attr('_pos')):
+                                moved += 1
+                            elif e[0] == 'yield':
+                                k += 1
+                                if moved < k:
+                                    late = True
+                        if late:
+                            fail('count-late', 'the position is advanced after the row has been yielded: while the consumer holds row k '
+                                 'rownumber is k - 1, and a loop left at that point (break, next() once) never counts the row it received')
                         n_y = len(ys)
                         incs = _pos_incs(p)
                         if any(i != 1 for i in incs) or (len(incs) != n_y and not any(e[0] == 'loop-cut' for e in p.events)) \
@@ -178,7 +193,8 @@ def _execute_paths(P, cur):
     ex = cur.methods.get('execute')
     if ex is None:
         raise AnalysisError('anchor vanished: Cursor.execute')
-    DESC, ROWS = Sym('DESCRIPTION'), Sym('ROWS')
+    # the description of a result without columns is the empty tuple: a value of undecided truth, not an object that is always true
+    DESC, ROWS = T('attr', (Sym('RESULT'), 'description')), Sym('ROWS')
 
     def on_call(fname, fval, recv, args, kwargs, e, node):
         f = str(fname)
